@@ -288,6 +288,26 @@ func (c *Check) guardRule(rule string, sel func(*ssa.Function) bool, constOnly b
 					if ok {
 						break
 					}
+					// the value is built differently in the helper (make+index ↔ append, local ↔
+					// parameter): match on the index shape alone, provided it identifies one site
+					// of the helper and one entry of the caller
+					shape := func(k string) string { return k[strings.LastIndex(k, "["):] }
+					nHelper := 0
+					for _, s2 := range g.collectSites(f, constOnly) {
+						if g.discharge(s2) == "" && shape("idx:"+fnName(f)+":"+s2.desc) == shape(o.Key) {
+							nHelper++
+						}
+					}
+					var cands []string
+					for k3 := range exceptions {
+						if !seenKeys[k3] && strings.HasPrefix(k3, "idx:"+fnName(caller)+":") && shape(k3) == shape(o.Key) {
+							cands = append(cands, k3)
+						}
+					}
+					if nHelper == 1 && len(cands) == 1 && len(directCallers(p, f)) == 1 {
+						why, ok, hookFn = exceptions[cands[0]]+" [site now in helper "+fnName(f)+"]", true, fnName(caller)
+						break
+					}
 				}
 			}
 			if os.Getenv("MIGRATE_KEYS") != "" && !ok {
